@@ -264,3 +264,9 @@ def thorough():
     """True when the check runs in the thorough tier (VERIF_TIER / --tier thorough): sidecars use it to widen enumerated shapes."""
     import os
     return os.environ.get("VERIF_TIER", "quick") == "thorough"
+
+
+def module_global(path, name):
+    """native counterpart of the spec builtin: the value of a module-level name of the repository"""
+    import importlib
+    return getattr(importlib.import_module(path[:-3].replace("/", ".")), name)
